@@ -9,6 +9,7 @@ SCHEMAS = {
   'AB': {'A': ['col0', 'col1'], 'B': ['col0']},
   'ABC': {'A': ['col0', 'col1'], 'B': ['col0'], 'C': ['col0', 'col1']},
   'E': {'E': ['col0', 'col1']},
+  'ABS': {'A': ['col0', 'col1'], 'B': ['col0'], 'S': ['col0']},
   'EW': {'E': ['col0', 'col1', 'col2']},
 }
 
@@ -30,6 +31,19 @@ def dbs_ab(maxrows=2, vals=(1, 2)):
     db = multisets([(a,) for a in vals], maxrows)
     _DBS[key] = [{'A': a, 'B': b} for a in da for b in db]
   return _DBS[key]
+
+
+def dbs_abs():
+  key = 'ABS'
+  if key not in _DBS:
+    da = multisets([(a, b) for a in (1, 2) for b in (1, 2)], 1)
+    db = multisets([(1,), (2,)], 1)
+    ds = multisets([('a',), ('b',)], 2)
+    _DBS[key] = [{'A': a, 'B': b, 'S': s} for a in da for b in db for s in ds]
+  return _DBS[key]
+
+
+FACT_DBS_ABS = [{'A': [(1, 2), (2, 2)], 'B': [(2,)], 'S': [('a',), ('b',), ('a',)]}]
 
 
 FACT_DBS_AB = [
